@@ -42,6 +42,7 @@ fn plan(prop: &'static str, proj: Proj, max_len: usize, max_dev: usize) -> Plan 
         ctors: vec![CTOR_NEW_WITH_STATE],
         check_probe_neutral: true,
         sweep_all: false,
+        pieces: false,
     }
 }
 
@@ -234,7 +235,7 @@ pub fn sets_family(n_shapes: usize, third: &[usize], with_orders: bool) -> Vec<S
 }
 
 pub fn eoi_family() -> Vec<Spec> {
-    let eoi_rules = [Re::Eoi, cat(ch('a'), Re::Eoi), cat(plus(ch('a')), Re::Eoi), cat(st("ab"), Re::Eoi)];
+    let eoi_rules = [Re::Eoi, cat(ch('a'), Re::Eoi), cat(plus(ch('a')), Re::Eoi), cat(st("ab"), Re::Eoi), cat(plus(ch('a')), opt(Re::Eoi))];
     let mut out = vec![];
     for e0 in &eoi_rules {
         for e1 in &eoi_rules {
@@ -262,6 +263,11 @@ pub fn eoi_family() -> Vec<Spec> {
         // input can end inside a lexeme in a state that is flagged for backtracking but was
         // reached with nothing recorded, while `Init` has a `$` rule
         vec![Re::Eoi, ch('a'), cat(cat(alt(ch('a'), ch('b')), star(ch('c'))), ch('b'))],
+        // optional `$`: the match through `$` is still preferred to the same lexeme without it
+        vec![cat(plus(ch('a')), opt(Re::Eoi)), plus(ch('a')), ch('b')],
+        vec![plus(ch('a')), cat(plus(ch('a')), opt(Re::Eoi)), ch('b')],
+        vec![Re::Eoi, cat(plus(ch('a')), opt(Re::Eoi)), ch('b')],
+        vec![cat(st("ab"), opt(Re::Eoi)), cat(ch('a'), opt(cat(ch('b'), Re::Eoi))), ch('b')],
         vec![cat(ch('a'), Re::Eoi), ch('a'), cat(alt(ch('a'), ch('b')), st("cb"))],
     ];
     for t in &tails {
@@ -490,11 +496,32 @@ pub fn groups(prop: &str, tier: &str) -> Vec<Group> {
             }
             let mut p = plan("C01", Proj::Tokens, if q { 6 } else { 7 }, 0);
             p.extra_inputs = vec!["bbabx".into(), "cbaabx".into(), "abcabcabx".into(), "abcabcaab".into()];
-            vec![Group { plan: p, specs }]
+            let wide: Vec<Spec> = pair_family().into_iter().step_by(if q { 3 } else { 1 }).map(|s| Spec::single(s.sets[0].rules.iter().map(|r| ret(bind(&r.re, &BETA2))).collect(), "pair_bound")).collect();
+            let pw = with(plan("C01", Proj::Tokens, if q { 4 } else { 5 }, 0), |p| p.alphabet = BETA2.to_vec());
+            vec![Group { plan: p, specs }, Group { plan: pw, specs: wide }]
         }
         "C02" => {
             let specs: Vec<Spec> = if q { single_enum(3, &a6, 1, 400) } else { single_enum(4, &a12, 2, 1200) };
-            vec![Group { plan: plan("C02", Proj::Tokens, 6, 0), specs }]
+            // the same operators over multi-byte characters (strings are sequences of characters, not bytes)
+            let bound = |beta: &[char; 4], n: usize| -> Group {
+                let specs: Vec<Spec> = single_enum(3, &a12, 1, 1000)
+                    .into_iter()
+                    .filter(|s| matches!(&s.sets[0].rules[0].re, r if format!("{r:?}").contains("Str")))
+                    .take(n)
+                    .map(|s| Spec::single(vec![ret(bind(&s.sets[0].rules[0].re, beta)), ret(bind(&ch('x'), beta))], "single_bound"))
+                    .collect();
+                Group { plan: with(plan("C02", Proj::Tokens, 5, 0), |p| p.alphabet = beta.to_vec()), specs }
+            };
+            // built-in classes inside rules (guard chains and search tables in front of further states)
+            let b = |n: &str| builtin(n);
+            let builtin_rules = vec![
+                Spec::single(vec![ret(plus(b("alphabetic"))), ret(plus(b("ascii_digit"))), ret(Re::Any)], "builtin_rules"),
+                Spec::single(vec![ret(cat(b("XID_Start"), star(b("XID_Continue")))), ret(cat(plus(b("numeric")), opt(cat(ch('.'), plus(b("numeric")))))), ret(Re::Any)], "builtin_rules"),
+                Spec::single(vec![ret(cat(b("uppercase"), plus(b("lowercase")))), ret(plus(diff(b("alphanumeric"), b("uppercase")))), ret(plus(b("uppercase")))], "builtin_rules"),
+                Spec::single(vec![ret(plus(alt(b("lowercase"), ch('_')))), ret(cat(set(&[('0', '9'), ('a', 'b'), ('d', 'e'), ('g', 'h'), ('j', 'k'), ('m', 'n'), ('p', 'q'), ('s', 't'), ('v', 'w'), ('y', 'z'), ('A', 'Z')]), ch('!'))), ret(Re::Any)], "builtin_rules"),
+            ];
+            let pb = with(plan("C02", Proj::Tokens, if q { 4 } else { 5 }, 0), |p| p.alphabet = vec!['a', 'z', 'Z', '9', '_', '!', '.', 'é']);
+            vec![Group { plan: plan("C02", Proj::Tokens, 6, 0), specs }, bound(&BETA1, if q { 40 } else { 300 }), bound(&BETA2, if q { 40 } else { 300 }), Group { plan: pb, specs: builtin_rules }]
         }
         "C03" => {
             let specs = if q { sets_family(6, &[2, 3, 5], true) } else { sets_family(10, &[0, 2, 3, 5, 6, 9], true) };
@@ -504,6 +531,7 @@ pub fn groups(prop: &str, tier: &str) -> Vec<Group> {
         "C05" => {
             let mut p = plan("C05", Proj::Full, if q { 5 } else { 6 }, 2);
             p.alphabet = vec!['a', 'b', 'c'];
+            p.pieces = true;
             let mut specs = eoi_family();
             specs.extend(selected("eoi2_a6", if q { 60 } else { usize::MAX }));
             vec![Group { plan: p, specs }]
@@ -539,12 +567,12 @@ pub fn groups(prop: &str, tier: &str) -> Vec<Group> {
             let mut specs = regress_single();
             specs.extend(pair_family());
             specs.extend(kinds_family(false));
-            specs.extend(selected("pair3_a12", if q { 60 } else { usize::MAX }));
+            specs.extend(selected("pair3_a12", if q { 60 } else { 400 }));
             specs.push(Spec::single(vec![ret(Re::Any)], "any_only"));
             specs.push(Spec::single(vec![rule(Re::Any, Kind::Skip)], "any_only"));
             specs.push(Spec::single(vec![rule(plus(Re::Any), Kind::Act(D_CONTINUE))], "any_only"));
-            let mut p = plan("C09", Proj::Progress, if q { 5 } else { 6 }, 1);
-            let long = if q { 20_000 } else { 200_000 };
+            let mut p = plan("C09", Proj::Progress, 5, 1);
+            let long = if q { 20_000 } else { 100_000 };
             p.extra_inputs = vec![
                 "a".repeat(long),
                 "x".repeat(long),
@@ -797,6 +825,9 @@ pub fn p_family(name: &str) -> Option<PFamily> {
             let mut all = base.clone();
             for r in &base {
                 all.push(cat(r.clone(), Re::Eoi));
+            }
+            for r in base.iter().take(if k == 2 { 12 } else { 24 }) {
+                all.push(cat(r.clone(), opt(Re::Eoi)));
             }
             all.push(Re::Eoi);
             tuples(rets(all), 2, "eoi")
